@@ -216,6 +216,12 @@ func c19Unescape(x []byte) string {
 // c19NumRef is a reference decoder for conforming numeric references; ok=false when x contains a
 // reference-like form outside the conforming digit counts (then only validity is checked).
 func c19NumRef(x []byte) (want []byte, exact bool) {
+	return c19NumRefMode(x, true, true)
+}
+
+// c19NumRefMode: resolveLong tells whether reference-like forms with more digits than CommonMark allows are resolved
+// (to the code point, or U+FFFD when it is out of range) or kept literally; both are accepted by the oracle.
+func c19NumRefMode(x []byte, resolveLongHex, resolveLongDec bool) (want []byte, exact bool) {
 	exact = true
 	for i := 0; i < len(x); {
 		if x[i] == '&' && i+2 < len(x) && x[i+1] == '#' {
@@ -241,6 +247,11 @@ func c19NumRef(x []byte) (want []byte, exact bool) {
 			if nd > 0 && j < len(x) && x[j] == ';' {
 				if hexm && nd > 6 || !hexm && nd > 7 {
 					exact = false
+					if hexm && !resolveLongHex || !hexm && !resolveLongDec {
+						want = append(want, x[i:j+1]...)
+						i = j + 1
+						continue
+					}
 				}
 				r := rune(v)
 				if v == 0 || v > 0x10FFFF || v >= 0xD800 && v <= 0xDFFF {
@@ -269,8 +280,22 @@ func c19Numeric(x []byte) string {
 	if bytes.ContainsRune(out, 0) && !bytes.ContainsRune(x, 0) {
 		return fmt.Sprintf("NUL produced: %q -> %q", x, out)
 	}
-	if want, exact := c19NumRef(x); exact && !bytes.Equal(out, want) {
-		return fmt.Sprintf("%q -> %q, reference decoder %q", x, out, want)
+	if want, exact := c19NumRef(x); !bytes.Equal(out, want) {
+		if exact {
+			return fmt.Sprintf("%q -> %q, reference decoder %q", x, out, want)
+		}
+		// over-long digit strings: either resolved (out-of-range => U+FFFD) or kept literally
+		ok := false
+		var alt []byte
+		for _, m := range [][2]bool{{false, false}, {true, false}, {false, true}} {
+			alt, _ = c19NumRefMode(x, m[0], m[1])
+			if bytes.Equal(out, alt) {
+				ok = true
+			}
+		}
+		if !ok {
+			return fmt.Sprintf("%q -> %q, reference decoder %q (over-long references resolved) or e.g. %q (kept)", x, out, want, alt)
+		}
 	}
 	return ""
 }
@@ -380,7 +405,7 @@ func c19All(c *core.Ctx, x []byte) {
 func runC19(c *core.Ctx) {
 	// regression seeds (witnesses of repaired defects)
 	if c.Shard == 0 {
-		for _, s := range []string{"%a%", "%a ", "%aé", "%a\"", "&#065;", "&#08;", "&#0;", "&#xD800;", "&#x110000;", "&#1114112;", "%", "%4", "%zz", "a%41b"} {
+		for _, s := range []string{"%a%", "%a ", "%aé", "%a\"", "&#065;", "&#08;", "&#0;", "&#xD800;", "&#x110000;", "&#1114112;", "%", "%4", "%zz", "a%41b", "&#x100000041;", "&#x0000041;", "&#xFFFFFFFF00000041;", "&#4294967361;"} {
 			c19All(c, []byte(s))
 		}
 	}
@@ -400,7 +425,7 @@ func runC19(c *core.Ctx) {
 	c.Count("exhaustive_strings", int64(n/c.NShards))
 	// 2. random longer strings, incl. length 4/6 samples and reference-heavy strings
 	r := c.Rng
-	big := append(append([]string{}, c19Alpha...), "&amp;", "&#35;", "&#x23;", "&#0;", "&#xD800;", "&#1234567;", "&#12345678;", "&#x1234567;", "&copy;", "&zzq;", "&Tab;", "&ngE;", "%41", "%e3%81%82", "%2", "あ", "ß", "K", "\\&", "\\\\", "\\a", "\t", "\n", "\r", "\x00", "\x7f", "{", "|", "}", "^", "`", "[", "]", "+", "~", "'", "(", ")")
+	big := append(append([]string{}, c19Alpha...), "&amp;", "&#35;", "&#x23;", "&#0;", "&#xD800;", "&#1234567;", "&#12345678;", "&#x1234567;", "&#x100000041;", "&#x0000041;", "&#x10000000000000041;", "&#4294967361;", "&#x1000000D800;", "&#xFFFFFFFF00000041;", "&copy;", "&zzq;", "&Tab;", "&ngE;", "%41", "%e3%81%82", "%2", "あ", "ß", "K", "\\&", "\\\\", "\\a", "\t", "\n", "\r", "\x00", "\x7f", "{", "|", "}", "^", "`", "[", "]", "+", "~", "'", "(", ")")
 	nr := c.PerShard(c.N(300000, 30000000))
 	for i := 0; i < nr; i++ {
 		var x []byte
